@@ -1294,7 +1294,7 @@ pub fn gen_ops(fam: Fam, st: &Model, k: usize, level: u8) -> Vec<Op> {
         }
         Fam::Map => {
             if let Some(Node::Map(m)) = st.get(&'m') {
-                map_ops(&mut out, &Tgt::root('m'), m, k, level.max(1), false);
+                map_ops(&mut out, &Tgt::root('m'), m, k, level, false);
             }
         }
         Fam::Xml => {
